@@ -131,11 +131,16 @@ func runTeardownCase[T any](codec Codec[T], tc tdCase) *tdOutcome {
 	checkEnum(p.A, "healthy")
 	checkEnum(p.B, "healthy")
 	var wg sync.WaitGroup
+	app := newAppCtx()
+	watchersBefore := ctxWatchers()
 	for i := 0; i < tc.K; i++ {
 		i := i
 		wg.Add(2)
-		go func() { defer wg.Done(); ra.Gate(context.Background(), 100+i) }()
-		go func() { defer wg.Done(); rb.Gate(context.Background(), 200+i) }()
+		// the calls run under an application-wide context that outlives the link and is not a plain
+		// context.cancelCtx (its Done channel is its own): every context panrpc derives from it costs a watcher
+		// goroutine of package context until that derived context is cancelled
+		go func() { defer wg.Done(); ra.Gate(app, 100+i) }()
+		go func() { defer wg.Done(); rb.Gate(app, 200+i) }()
 	}
 	// let the handlers start
 	deadline := time.Now().Add(2 * time.Second)
@@ -263,6 +268,16 @@ func runTeardownCase[T any](codec Codec[T], tc tdCase) *tdOutcome {
 			out.p15 = append(out.p15, "a closure-carrying call made after teardown hangs")
 		}
 	}
+	// contexts derived for the in-flight calls must have been released (cancelled): none of package context's
+	// watcher goroutines for children of the application's context may remain
+	wd := time.Now().Add(500 * time.Millisecond)
+	for ctxWatchers() > watchersBefore && time.Now().Before(wd) {
+		time.Sleep(time.Millisecond)
+	}
+	if n := ctxWatchers() - watchersBefore; n > 0 {
+		out.p15 = append(out.p15, fmt.Sprintf("%d context(s) derived from the application's context for calls that were in flight are still live after teardown (their watcher goroutines remain: nobody cancelled them)", n))
+	}
+	app.stop()
 	for _, s := range []*Side[T]{p.A, p.B} {
 		if n := s.Reg.VerifClosureCount(); n != 0 {
 			out.p15 = append(out.p15, fmt.Sprintf("side %s: %d closure registrations remain", s.Name, n))
@@ -416,4 +431,38 @@ func validateRg(rep *Report, prop string, ms []modelCheck, cases []string) {
 			rep.addViolation("correspondence", prop+":registry-model", fmt.Sprintf("%s: M4 disagrees with the implementation: %s", cases[i], bad), map[string]any{"lines": m.lines})
 		}
 	}
+}
+
+// appCtx: an application-wide context with a Done channel of its own (as a wrapped / merged context has):
+// package context cannot hook children into it directly and starts one watcher goroutine per derived context.
+type appCtx struct {
+	context.Context
+	done chan struct{}
+	once sync.Once
+}
+
+func newAppCtx() *appCtx { return &appCtx{Context: context.Background(), done: make(chan struct{})} }
+func (a *appCtx) Done() <-chan struct{} { return a.done }
+func (a *appCtx) Err() error {
+	select {
+	case <-a.done:
+		return context.Canceled
+	default:
+		return nil
+	}
+}
+func (a *appCtx) stop() { a.once.Do(func() { close(a.done) }) }
+
+// ctxWatchers counts package context's propagateCancel watcher goroutines.
+func ctxWatchers() int {
+	buf := make([]byte, 1<<20)
+	for {
+		n := runtime.Stack(buf, true)
+		if n < len(buf) {
+			buf = buf[:n]
+			break
+		}
+		buf = make([]byte, 2*len(buf))
+	}
+	return strings.Count(string(buf), "context.(*cancelCtx).propagateCancel.func")
 }
